@@ -33,7 +33,7 @@
    Publication (release/acquire half, view machine of coq/WM/RA.v, orders regenerated from the source): see the end.
    Not modelled: for_each's grouping into ranges, ConcurrentVector growth, _next_value overflow. *)
 From Coq Require Import ZArith List Bool.
-Require Import Verif.Gen.Gen_id_allocator Verif.Conc.Machine Verif.ID.IDModel Verif.ID.IDProofs Verif.ID.IDWrap.
+Require Import Verif.Gen.Gen_id_allocator Verif.Conc.Machine Verif.ID.IDModel Verif.ID.IDProofs Verif.ID.IDWrap Verif.ID.IDAcc.
 Import ListNotations.
 Local Open Scope Z_scope.
 
@@ -148,6 +148,31 @@ Theorem c14_stale_never_matches_unbounded : forall c progs s v k sch, vmod c = 0
   let s2 := run st (step c) s sch in nv (sh s2) <= ACTc c -> k < getz (sver (sh s2)) v.
 Proof. exact id_stale_never_matches. Qed.
 Print Assumptions c14_stale_never_matches_unbounded.
+
+(* ---- the RAII layer: DepositBox::Accessor.  Every thread has accessor objects ("holders"); take() into a holder is a
+   move assignment from a temporary followed by the temporary's destructor; holders are move-assigned, move-constructed
+   and destroyed.  The special members of the model are interpreted from the regenerated source (the three std::swap
+   calls of operator=, the std::exchange of the move constructor, the destructor's test). ---- *)
+(* every successful take is finished exactly once:  #successful takes = #finish_released calls + #ids currently held
+   (raw taken ids + armed accessors) in every reachable state of every program, for every version width.  Hence
+   finish_released is never called more often than takes succeeded, and once nobody holds an id any more each won id has
+   been finished.  (That the calls hit distinct slots - no double finish of one slot while another leaks - is
+   c14_unique_owner, whose owners include the values held through armed accessors.) *)
+Theorem c14_accessor_balance : forall c progs s, Reach c progs s ->
+  Z.of_nat (length (wins (sh s))) = nfin (sh s) + Z.of_nat (held_count s).
+Proof. exact id_accessor_balance. Qed.
+Print Assumptions c14_accessor_balance.
+Theorem c14_accessor_releases_once : forall c progs s, Reach c progs s ->
+  nfin (sh s) <= Z.of_nat (length (wins (sh s))) /\
+  ((forall th, In th (threads s) -> taken th = [] /\ filter fst (accs th) = []) ->
+   nfin (sh s) = Z.of_nat (length (wins (sh s)))).
+Proof. exact id_accessor_releases_once. Qed.
+Print Assumptions c14_accessor_releases_once.
+(* what the proofs use of the source: move assignment exchanges the two accessors, the move constructor disarms its source *)
+Theorem c14_accessor_move_assign_is_swap : forall a b, acc_assign (a, b) = (b, a).
+Proof. exact id_accessor_assign_is_swap. Qed.
+Theorem c14_accessor_move_ctor_disarms_source : forall o, acc_ctor o = (o, (false, snd o)).
+Proof. exact id_accessor_move_ctor_disarms_source. Qed.
 
 (* the memory orders the argument relies on are the ones in the source (regenerated site tables): head loads
    acquire, pop CAS acq_rel, push CAS release/acquire, take is a strong CAS *)
